@@ -92,7 +92,9 @@ def run_case(case, ctx):
             problem = f"negative: {float(v)}"
         else:
             worst = max(abs(float(v) - r) for r in c["refs"])
-            if worst > 1e-6:
+            # 1e-6 is the statement's tolerance; the extra 1e-9 keeps a difference of *exactly* 1e-6 (a scheme scaled
+            # to B[1] = 1e-6 next to the CPLEX pool's absolute gap of 1e-6) on the right side of binary64 rounding
+            if worst > 1e-6 + 1e-9:
                 problem = f"reported {float(v)!r}"
         if problem:
             ctx.violate("C04/wrong-score" if problem.startswith("reported") else "C04/absent-or-negative",
